@@ -149,19 +149,24 @@ Theorem C10_cbc_plaintext_aligned :
 Proof. exact cbc_plaintext_aligned. Qed.
 Print Assumptions C10_cbc_plaintext_aligned.
 
-(* F8: the model of what cbc.go hmacCID authenticates differs from the RFC 9146 section 5.1 MAC
-   input for every non-empty inner plaintext (witness replayed on /repo by checks/c10.py) *)
-Theorem C10_cbc_cid_mac_input_refuted :
-  exists e s v cid inner,
-    cbc_mac_input_cid_as_coded e s v cid inner <> cbc_mac_input_cid e s v cid inner.
-Proof. exact cbc_cid_mac_input_refuted. Qed.
-Print Assumptions C10_cbc_cid_mac_input_refuted.
+(* RFC 9146 section 5.1: the CBC MAC input of a connection-ID record is the RFC 9146 additional
+   data followed by the serialized DTLSInnerPlaintext exactly once, and it determines every
+   authenticated field (epoch, sequence number, version, connection ID) and the inner plaintext *)
+Theorem C10_cbc_mac_input_cid_layout :
+  forall e s v cid inner,
+  cbc_mac_input_cid e s v cid inner = aad12_cid e s v cid (len inner) ++ inner /\
+  length (cbc_mac_input_cid e s v cid inner) = (23 + length cid + length inner)%nat.
+Proof. exact cbc_mac_input_cid_layout. Qed.
+Print Assumptions C10_cbc_mac_input_cid_layout.
 
-Theorem C10_cbc_cid_mac_input_differs :
-  forall e s v cid inner, inner <> [] ->
-    cbc_mac_input_cid_as_coded e s v cid inner <> cbc_mac_input_cid e s v cid inner.
-Proof. exact cbc_cid_mac_input_differs. Qed.
-Print Assumptions C10_cbc_cid_mac_input_differs.
+Theorem C10_cbc_mac_input_cid_injective :
+  forall e s v cid inner e' s' v' cid' inner',
+  e < 2 ^ 16 -> e' < 2 ^ 16 -> s < 2 ^ 48 -> s' < 2 ^ 48 -> v < 2 ^ 16 -> v' < 2 ^ 16 ->
+  len cid < 256 -> len cid' < 256 -> len inner < 2 ^ 16 -> len inner' < 2 ^ 16 ->
+  cbc_mac_input_cid e s v cid inner = cbc_mac_input_cid e' s' v' cid' inner' ->
+  e = e' /\ s = s' /\ v = v' /\ cid = cid' /\ inner = inner'.
+Proof. exact cbc_mac_input_cid_injective. Qed.
+Print Assumptions C10_cbc_mac_input_cid_injective.
 
 (* ---------------- HKDF / DTLS 1.3 ---------------- *)
 
